@@ -102,7 +102,11 @@ func checkConv(id, typ, tier, replay string) int {
 			// and the device is left short of the target.
 			rule := strings.TrimPrefix(o.Exec.Name, "rejected:")
 			rep.Count("command_rejected_"+rule, 1)
-			o.Conv = &clause{"not-converged:command-rejected:" + rule, o.Exec.What}
+			head := ""
+			if o.ExecStep < len(o.Commands) {
+				head = ":" + cmdHead(o.Commands[o.ExecStep])
+			}
+			o.Conv = &clause{"not-converged:command-rejected:" + rule + head, o.Exec.What}
 		}
 		if o.Conv != nil {
 			key := typ + ":" + o.Conv.Name
